@@ -36,6 +36,7 @@ pub fn replay(input: &str, output: &str) {
     let mut evals: u64 = 0;
     let mut nontrivial: u64 = 0;
     let eps = 1e-9;
+    let index: std::collections::HashMap<(i64, i64, i64, i64), Vec<i64>> = lines.iter().map(|l| ((l["f"].as_i64().unwrap(), l["t"].as_i64().unwrap(), l["n"].as_i64().unwrap(), l["r"].as_i64().unwrap()), ivec(&l["acc2"]))).collect();
     for (id, line) in lines.iter().enumerate() {
         let f = line["f"].as_i64().unwrap();
         let t = line["t"].as_i64().unwrap();
@@ -107,6 +108,30 @@ pub fn replay(input: &str, output: &str) {
                     let hi = (((h + 1) / 2) as f64 * step_deg).to_radians() - eps;
                     probe(lo, *v == 1, "1e-9 above a lattice point", &mut out);
                     probe(hi, *v == 1, "1e-9 below a lattice point", &mut out);
+                }
+            }
+            // a second set around the same centre, one lattice step wider on either side (its verdicts are those of
+            // its own lattice line): the two are asked about the same vectors in turn - a verdict belongs to the set
+            // that is asked, not to the vector or to the set that was asked just before
+            if let Some(wider) = index.get(&(f - 1, t + 1, n, r)) {
+                let mut from2 = from; let mut to2 = to; let mut fd2 = from_deg; let mut td2 = to_deg;
+                fd2[j] = (f - 1) as f64 * step_deg; td2[j] = (t + 1) as f64 * step_deg;
+                from2[j] = fd2[j].to_radians(); to2[j] = td2[j].to_radians();
+                if let Some(c2) = guarded(|| build(ctor, &from2, &to2, &fd2, &td2)) {
+                    for (i, v) in acc2.iter().enumerate() {
+                        let h = i as i64 - 2 * r;
+                        let v2 = wider[i];
+                        if h.rem_euclid(2) != 0 || !matches!(*v, 0 | 1) || !matches!(v2, 0 | 1) || *v == v2 { continue; }
+                        let mut q = [0.0; 6];
+                        q[j] = ((h / 2) as f64 * step_deg).to_radians();
+                        let got = (c.compliant(&q), c2.compliant(&q), c.compliant(&q), c2.filter(&vec![q]).len() == 1, c.filter(&vec![q]).len() == 1);
+                        evals += 5;
+                        let want = (*v == 1, v2 == 1, *v == 1, v2 == 1, *v == 1);
+                        if got != want {
+                            out.put(json!({"sig": format!("limits:{}:{}:verdict-depends-on-the-set-asked-before", ctor, class),
+                                "detail": format!("ranges {}..{} deg and {}..{} deg (same centre) asked in turn about {} deg on joint {}: got {:?} expected {:?}", from_deg[j], to_deg[j], fd2[j], td2[j], q[j].to_degrees(), j + 1, got, want)}));
+                        }
+                    }
                 }
             }
             // filter(): keeps exactly the accepted vectors, in order
@@ -300,6 +325,7 @@ pub fn record_samples(output: &str) {
         }
         sets.push((from, to));
     }
+    let mut last_c: Option<Constraints> = None;
     for (n, (from, to)) in sets.into_iter().enumerate() {
         // the constraint sets reach their limits through all three ways: new, update_range (from other, unrelated
         // limits) and from_degrees
@@ -332,10 +358,14 @@ pub fn record_samples(output: &str) {
             Some(robot) => { use rs_opw_kinematics::kinematic_traits::Kinematics; robot.constraints().clone().unwrap_or(c) }
             None => c,
         };
+        let other = last_c.clone();
         let mut sample = |c: &Constraints, from: &[i64; 6], to: &[i64; 6], out: &mut Out| {
-            for _ in 0..draws {
+            for d in 0..draws {
                 match guarded(|| c.random_angles()) {
                     Some(q) => {
+                        // (every second draw is shown to the preceding, unrelated set first: whether a vector satisfies a
+                        //  set is a matter of that set)
+                        if let (Some(o), 0) = (&other, d % 2) { let _ = guarded(|| (o.compliant(&q), o.filter(&vec![q]).len())); }
                         // accepted by `compliant` and kept by `filter` of the same constraints
                         let acc = c.compliant(&q) && c.filter(&vec![q]).len() == 1;
                         let two_pi = 2.0 * std::f64::consts::PI;
@@ -351,6 +381,7 @@ pub fn record_samples(output: &str) {
             }
         };
         sample(&c, &from, &to, &mut out);
+        last_c = Some(c.clone());
         // right afterwards, on the same thread: a second set with the same centres and arcs of a third of the width
         if with_sibling {
             let mut f2 = fr;
